@@ -30,6 +30,10 @@ import numpy as np
 from harness import core
 from harness.core import Prop, outcome, orat, unrat
 
+if hasattr(sys, "set_int_max_str_digits"):
+    # exact sums over a long table with levels and responses decades apart have numerators of several thousand digits
+    sys.set_int_max_str_digits(1_000_000)
+
 BUILTIN = ["Equal", "x", "1/x", "1/(x^2)", "y", "1/y", "1/(y^2)"]
 TOL = 1e-9          # relative tolerance on gradient/intercept (in the column-scaled norm) and r²
 RHO_MIN = 1e-18     # conditioning guard: D/(Sw*Swxx) below this => undetermined (above it the perturbation bound decides)
@@ -168,7 +172,10 @@ def table_as(rows, cw, form):
     return None
 
 
-def run_fit(rows, weighting, cw, prior=False, table=None):
+CALL_FORMS = ["keywords", "unit-keyword", "positional", "constructor-then-update"]
+
+
+def run_fit(rows, weighting, cw, prior=False, table=None, call="keywords"):
     """real pewlib on one variant; observation points: gradient, intercept, rsq, error, weights.
     prior=True: the same fit reached through a history - an object that already holds a (non-identity) line and fit
     statistics gets these points and weights assigned and is refitted with update_linreg().
@@ -189,6 +196,13 @@ def run_fit(rows, weighting, cw, prior=False, table=None):
                                       points=np.array([[1.0, 2.0], [2.0, 5.0], [4.0, 7.0]]), weights="Equal")
                     cal.points = pts
                     cal.weights = wts
+                    cal.update_linreg()
+                elif call == "unit-keyword":
+                    cal = Calibration.from_points(pts, unit="ppm", weights=wts)
+                elif call == "positional":
+                    cal = Calibration.from_points(pts, "ng/g", wts)
+                elif call == "constructor-then-update":
+                    cal = Calibration(points=pts, weights=wts, unit="ppb")
                     cal.update_linreg()
                 else:
                     cal = Calibration.from_points(pts, weights=wts)
@@ -793,6 +807,8 @@ def data_features(dt, layout, shape, exact):
     f.add("data:integer-counts" if dt.kind in "iu" else "data:binary32" if dt.itemsize == 4 else "data:binary64")
     if not exact:
         f.add("empty-array")
+    if len(exact) >= 1000:
+        f.add("data:image(>=1000 elements)")
     if dt.kind in "iu" and exact:
         info = np.iinfo(dt)
         if int(info.max) in exact or (dt.kind == "i" and int(info.min) in exact):
@@ -899,6 +915,8 @@ class C06(Prop):
         scale = 10.0 ** rng.choice([0, 0, 0, -3, -2, -1, 1, 2, 3, 0, -3, -2, -1, 1, 2, 3, -12, -9, -6, 6, 9, 12])
         mode = rng.choice(["ladder"] * 8 + ["few", "same", "zeros", "close", "close", "two-level"])
         n = rng.choice([2, 2, 3, 3, 4, 4, 5, 5, 6, 7, 8] + ([10, 12] if big else []))
+        if rng.random() < 0.03:  # a long table (replicates of every level, a whole plate of standards)
+            n = rng.choice([20, 50, 200] + ([600] if big else []))
         if unit:
             scale, mode = rng.choice(TRACE_SCALES), "ladder"
         if mode == "few":
@@ -1064,6 +1082,8 @@ class C06(Prop):
         dtype = self.gen_dtype(rng)
         dt = parse_dtype(dtype)
         shape = rng.choice([[], [], [0], [1], [4], [6], [2, 3], [3, 1], [0, 3], [2, 2, 2], [1, 3, 2], [3, 4]])
+        if rng.random() < 0.04:  # an image rather than a handful of pixels
+            shape = rng.choice([[40, 50], [1500], [8, 16, 12]])
         size = int(np.prod(shape)) if shape else 1
         layout = rng.choice(LAYOUTS if shape else ["c", "scalar", "scalar", "strided", "field", "readonly", "offset"])
         kind = rng.choice(["line", "line", "line-f64", "identity", "fitted", "fitted", "few", "near", "counts-fit"])
@@ -1363,7 +1383,9 @@ class C06(Prop):
                 nhist += 1
                 hist_feats |= history_features(vrows[0], vrows[1], rows, weighting, cw)
             elif name == "table":
-                got = run_fit(rows, weighting, cw, table=vrows)
+                call = CALL_FORMS[(len(impl) + len(rows)) % len(CALL_FORMS)]
+                got = run_fit(rows, weighting, cw, table=vrows, call=call)
+                table_feats.add("call:" + call)
                 d = parse_dtype(vcw)
                 d = d if d is not None and d.kind in "iu" else None
                 table_feats.add("table:" + (vcw if d is None else "int-array:" + d.base.str[1:]))
@@ -1495,6 +1517,8 @@ class C06(Prop):
                 f.add("constant-y(r2 not compared)")
             if len(clean) == 2:
                 f.add("two-usable-rows")
+            if len(clean) >= 20:
+                f.add("long-table(>=20 usable rows)")
             lv = sorted(set(x for x, _ in clean))
             if len(lv) == 2 and len(clean) > 2:
                 f.add("two-levels-with-replicates")
